@@ -539,6 +539,42 @@ def call_py(ex, obj, name, node, st):
             return single_match(ex, pat, data, st, oname, pos.z if pos is not None else None)
         if oname == "sub":
             return re_sub(ex, args, kw, st)
+    import ipaddress as _ipa
+    import socket as _sock
+
+    if obj in (_sock.inet_aton, _sock.inet_pton):
+        # socket.inet_aton(text) / socket.inet_pton(AF_INET6, text): OSError exactly on texts the C library rejects (uninterpreted ATON_OK / PTON6_OK)
+        args, _ = ex.eval_args(node, st)
+        a = args[-1]
+        if not isinstance(a, VStr):
+            raise Unsupported("inet_aton / inet_pton of a non-str")
+        fam = "4" if obj is _sock.inet_aton else "6"
+        ex.assumed.add("socket.inet_aton / inet_pton: raise OSError exactly on the texts they reject (uninterpreted); ipaddress.IPv4Address / IPv6Address of the packed value may raise "
+                       "AddressValueError; `.compressed` is an ASCII text that is a function of the parsed text (uninterpreted CANON4 / CANON6); a canonical dotted quad is accepted and is its own compressed form")
+        ok_ = uf(ex, "INET_OK" + fam, S, B)(a.z)
+        if fam == "4":
+            st.fact(z3.Implies(uf(ex, "CANON_QUAD", S, B)(a.z), ok_))
+        ex.raise_if(st, z3.Not(ok_), "OSError", "inet_aton" if fam == "4" else "inet_pton")
+        o = VObj("packed" + fam, {})
+        o.text = a.z
+        return o
+    if obj in (_ipa.IPv4Address, _ipa.IPv6Address):
+        (a,), _ = ex.eval_args(node, st)
+        if not (isinstance(a, VObj) and a.cls.startswith("packed")):
+            raise Unsupported("IPv4Address / IPv6Address of something other than a packed address")
+        fam = a.cls[-1]
+        ave = uf(ex, "ADDRESS_VALUE_ERROR" + fam, S, B)(a.text)
+        if fam == "4":
+            st.fact(z3.Implies(uf(ex, "CANON_QUAD", S, B)(a.text), z3.Not(ave)))
+        ex.raise_if(st, ave, "AddressValueError", "ipaddress")
+        canon = uf(ex, "CANON" + fam, S, S)(a.text)
+        st.fact(z3.InRe(canon, z3.Plus(z3.Union(z3.Range("0", "9"), z3.Range("a", "f"), z3.Re("."), z3.Re(":")))))
+        if fam == "4":
+            cq = uf(ex, "CANON_QUAD", S, B)(a.text)
+            st.fact(z3.Implies(cq, canon == a.text))
+        o = VObj("ipaddr", {"compressed": VStr(canon)})
+        o.attrs["compressed"].may_have_surrogates = False
+        return o
     if getattr(obj, "__name__", "") == "fromhex" and getattr(obj, "__self__", None) is bytes:
         (a,), _ = ex.eval_args(node, st)
         if not isinstance(a, VStr):
